@@ -438,9 +438,12 @@ func (e *Exec) specCall(st *State, fn *ssa.Function, args []Term) (Term, error) 
 				bound = append(bound, b)
 				binders = append(binders, fmt.Sprintf("(%s %s)", b.S, s))
 			}
+			savedStack, savedDepth, savedUnfold := e.callStack, e.depth, e.unfold
+			e.callStack, e.depth = nil, 0
 			e.binder++
 			body, err := e.runPure(st, fn, bound)
 			e.binder--
+			e.callStack, e.depth, e.unfold = savedStack, savedDepth, savedUnfold
 			if err != nil {
 				return Term{}, err
 			}
@@ -617,6 +620,9 @@ func (e *Exec) evalQuant(name string, x *ast.CallExpr, env *SpecEnv) (Val, error
 	sort := SInt
 	if name == "forallKey" {
 		sort = SString
+		if d := u.DT(ts[0].Sort); d != nil && d.Kind == "map" {
+			sort = d.Key
+		}
 	}
 	q := Term{fmt.Sprintf("q!%d", e.nfresh), sort}
 	saved, had := env.vars[vn]
@@ -645,6 +651,6 @@ func (e *Exec) evalQuant(name string, x *ast.CallExpr, env *SpecEnv) (Val, error
 		return termVal(T(SBool, "(exists ((%s Int)) %s)", q.S, And(rng, body).S)), nil
 	default:
 		dom := Or(u.MHas(ts[0], q), u.MHas(ts[1], q))
-		return termVal(T(SBool, "(forall ((%s String)) %s)", q.S, Implies(dom, body).S)), nil
+		return termVal(T(SBool, "(forall ((%s %s)) %s)", q.S, sort, Implies(dom, body).S)), nil
 	}
 }
